@@ -18,7 +18,7 @@ TRUSTED_INC = ["hand-written small-step Gallina model of experimental/incrementa
                "hooks experimental/incremental/verif_hooks.go under build tag verif)"]
 
 
-POISON = {"cancelled-run-result-cached", "pending-task-leaked-by-cancelled-run", "overlapping-run-waits-on-panicked-leader",
+POISON = {"evict-with-cleanup-misses-task-created-by-inflight-run", "evict-leaves-dependent-cached", "cancelled-run-result-cached", "pending-task-leaked-by-cancelled-run", "overlapping-run-waits-on-panicked-leader",
           "run-hangs", "stale-value-cached", "stale-value-returned", "panicking-query-cached"}
 
 
@@ -104,6 +104,25 @@ def is_real_cycle(deps, cyc):
             all(b in flat(deps, a) for a, b in zip(cyc, cyc[1:])))
 
 
+def expand(case, out):
+    """an `evrun` operation (Evict/Edit issued while a Run is in flight: it has to wait for the dirty lock) is, by the
+    specification, the Run followed by the Evict/Edit; returns the (operation, observation) pairs with evrun split up"""
+    pairs = []
+    for op, o in zip(case["ops"], out.get("ops", [])):
+        if op["op"] != "evrun" or o.get("skipped"):
+            pairs.append((op, o))
+            continue
+        pairs.append(({"op": "run", "keys": op["keys"], "concurrent_evict": True}, o))
+        if any(r.get("hang") for r in o.get("runs", [])):
+            break
+        if "vals" in op:
+            eop = {"op": "edit", "keys": op["evict"], "vals": op["vals"], "concurrent": True}
+        else:
+            eop = {"op": "evict", "keys": op["evict"], "concurrent": True}
+        pairs.append((eop, {"keys": o.get("ev_keys", []), "tasks": o.get("ev_tasks"), "ev_hang": o.get("ev_hang", False)}))
+    return pairs
+
+
 def oracle(case, out):
     """returns a list of (key, what) for every way the observed history contradicts the specification"""
     n, deps, par = case["n"], case["deps"], case["par"]
@@ -113,6 +132,7 @@ def oracle(case, out):
     cached = set()
     rc = reaches_cycle(n, deps)
     had_panic_run = False
+    prev_cached = set()
 
     def V(key, what):
         viol.append((key, what))
@@ -120,9 +140,12 @@ def oracle(case, out):
     if "ops" not in out:
         V("harness-crash", "the harness did not answer: %r" % (out,))
         return viol
-    for oi, (op, o) in enumerate(zip(case["ops"], out["ops"])):
-        tag = "op %d (%s): " % (oi, op["op"])
+    for oi, (op, o) in enumerate(expand(case, out)):
+        tag = "op %d (%s%s): " % (oi, op["op"], " issued while the previous Run was in flight" if op.get("concurrent") else "")
         if o.get("skipped"):
+            break
+        if o.get("ev_hang"):
+            V("evict-hangs", tag + "Evict did not return after the Run it overlapped with had returned")
             break
         if op["op"] in ("evict", "edit"):
             if op["op"] == "edit":
@@ -133,7 +156,12 @@ def oracle(case, out):
             if o["keys"] != want:
                 extra = sorted(set(want) - set(o["keys"]))
                 missing = sorted(set(o["keys"]) - set(want))
-                if missing:
+                late = [k for k in op["keys"] if k in cached and k not in prev_cached]
+                if missing and op.get("concurrent") and late and not (set(missing) - upward_closure(deps, cached, late)):
+                    V("evict-with-cleanup-misses-task-created-by-inflight-run",
+                      tag + "keys %s had no task yet when the call started and were computed by the Run in flight; they and their "
+                      "dependents %s stay memoized although the cleanup changed the input" % (late, missing))
+                elif missing:
                     V("evict-leaves-dependent-cached", tag + "keys %s depend on an evicted key but stay cached" % missing)
                 if extra and not had_panic_run:
                     V("evict-removes-unrelated-key", tag + "keys %s do not depend on an evicted key but were removed" % extra)
@@ -141,6 +169,7 @@ def oracle(case, out):
             check_edges(V, tag, deps, cached, o.get("tasks") or [], strict=not had_panic_run)
             continue
         sets = [op["keys"]] if op["op"] == "run" else op["runs"]
+        prev_cached = set(cached)
         runs = o["runs"]
         overlapping = len(sets) > 1
         hung = [i for i, r in enumerate(runs) if r.get("hang")]
@@ -240,7 +269,7 @@ def oracle(case, out):
                     if len(s) > 1:
                         V("changed-flag-inconsistent", tag + "callers of key %d saw different Changed flags in one Run" % d)
         # the cache afterwards
-        tasks = o.get("tasks") or []
+        tasks = [] if o.get("no_after") else (o.get("tasks") or [])
         for t in tasks:
             if t["state"] == "pending":
                 V("pending-task-leaked-by-cancelled-run", tag + "task %d is still pending after every Run returned" % t["k"])
@@ -251,6 +280,12 @@ def oracle(case, out):
                     V("cancelled-run-result-cached", tag + "key %d is memoized with the %s of a cancelled Run" % (t["k"], t["fatal"]))
                 if t["fatal"] == "none" and fv[t["k"]] is not None and t["v"] != fv[t["k"]]:
                     V("stale-value-cached", tag + "key %d is memoized with %d, a fresh computation gives %d" % (t["k"], t["v"], fv[t["k"]]))
+        if o.get("no_after"):
+            # an Evict was waiting for this Run: Keys() and the task map cannot be observed before it strikes
+            cached = cached | exec_set
+            if any(k in POISON for k, _ in viol):
+                break
+            continue
         if not P:
             want = sorted(cached | exec_set)
             if o["keys"] != want:
@@ -372,8 +407,8 @@ def coq_case(case, out, after_cancel=False):
     n, deps = case["n"], case["deps"]
     rc = reaches_cycle(n, deps)
     ops = []
-    for op, o in zip(case["ops"], out.get("ops", [])):
-        if o.get("skipped"):
+    for op, o in expand(case, out):
+        if o.get("skipped") or o.get("ev_hang"):
             break
         if op["op"] == "evict":
             ops.append("CEvict %s %s" % (nl(op["keys"]), nl(o["keys"])))
@@ -393,7 +428,7 @@ def coq_case(case, out, after_cancel=False):
                     if x["fatal"] not in ("none", "cycle"):
                         return ops_term(case, ops)
                     res.append("(%d%%N, %s, %s)" % (2 * x["v"] + (x["fatal"] != "none"), coq_bool(x["changed"]), coq_bool(not rc[k])))
-            ka = "None" if (canc and not after_cancel) else "(Some %s)" % nl(o["keys"])
+            ka = "None" if ((canc and not after_cancel) or o.get("no_after")) else "(Some %s)" % nl(o["keys"])
             ops.append("CRun %s %s [%s] %s %s false" % (nl(op["keys"]), coq_bool(canc), "; ".join(res), nl(o["execs"]), ka))
             if canc and not after_cancel:
                 break
